@@ -18,11 +18,12 @@ KNOWN = os.path.join(VERIF, 'known_findings.json')
 FORBIDDEN = re.compile(r'\b(Admitted|admit|Axiom|Axioms|Parameter|Parameters|Conjecture|Conjectures|'
                        r'Unset\s+Guard|bypass_check|type-in-type|impredicative-set|'
                        r'Admit\s+Obligations|Unset\s+Universe\s+Checking|Unset\s+Positivity)\b')
-# kernel primitives Print Assumptions lists under "Axioms:" (not axioms of this development)
-PRIM_ALLOW = re.compile(r'^(PrimFloat\.|Uint63\.|PrimInt63\.|Int63\.|of_uint63|to_uint63|float\b|int\b|'
-                        r'normfr_mantissa|frshiftexp|ldshiftexp|next_up|next_down|classify|abs\b|sqrt\b|opp\b|'
-                        r'eqb\b|ltb\b|leb\b|compare\b|mul\b|add\b|sub\b|div\b|'
-                        r'FloatOps\.|SpecFloat\.)')
+# kernel primitives (PrimFloat / Uint63 operations and the types float, int) that Print Assumptions
+# lists under "Axioms:": recognised by their *type*, which mentions nothing but primitive types
+PRIM_TYPE_TOKENS = {'float', 'int', 'bool', 'Set', 'comparison', 'float_class', 'float_comparison', 'carry', '->', '*', '(', ')'}
+def is_primitive_sig(typ):
+    toks = re.findall(r'->|[A-Za-z_][\w\.\']*|\S', typ)
+    return bool(toks) and all(t.split('.')[-1] in PRIM_TYPE_TOKENS or t in PRIM_TYPE_TOKENS for t in toks)
 
 # ------------------------------------------------------------------ literals
 def zl(n):
@@ -98,7 +99,7 @@ def grep_gate():
 def parse_assumptions(out):
     """-> (n_closed, [axiom names that are not allow-listed primitives], [primitives seen])"""
     closed = out.count('Closed under the global context')
-    axioms, prims = [], []
+    axioms, prims, entries = [], [], []
     in_ax = False
     for line in out.splitlines():
         if line.startswith('Axioms:'):
@@ -108,12 +109,16 @@ def parse_assumptions(out):
             if not line.strip():
                 in_ax = False
                 continue
-            m = re.match(r'^(\S+)\s*:', line)
+            m = re.match(r'^(\S+)\s*:\s*(.*)$', line)
             if m:
-                name = m.group(1)
-                (prims if PRIM_ALLOW.match(name) else axioms).append(name)
-            elif not line.startswith(' '):
+                name, cur = m.group(1), [m.group(2)]
+                entries.append((name, cur))
+            elif line.startswith(' ') and entries:
+                entries[-1][1].append(line.strip())      # continuation of a wrapped type
+            else:
                 in_ax = False
+    for name, cur in entries:
+        (prims if is_primitive_sig(' '.join(cur)) else axioms).append(name)
     return closed, axioms, prims
 
 # ------------------------------------------------------------------ the run object
